@@ -232,13 +232,30 @@ func c09Events() []c09Event {
 	for l := range c09NewLen {
 		ev = append(ev, c09Event{NewOp, fmt.Sprintf("new(l=%d)", c09NewLen[l]), l, 0})
 	}
+	// requested reserved index ω12 (only matters where the caller is the registrar): 0 above, 50 free, 200 taken
+	ev = append(ev, c09Event{NewOp, "new(l=0,i=50)", 0, 1})
+	ev = append(ev, c09Event{NewOp, "new(l=0,i=200)", 0, 2})
 	return ev
 }
 
 // worlds: margin above the caller's threshold × whether some entries live in the raw key-value list
 var c09Margins = []uint64{0, 46, 101, 147, 100000}
 
-func c09NWorlds() int { return len(c09Margins) * 2 }
+// registrar worlds (caller = CreateAcct, entries parsed): the margins are chosen so that after one
+// new(l=0) (cost 201) the balance is exactly at / just above the threshold, i.e. the threshold a
+// following write or solicit would need lies between the balance after and before the creation
+var c09RegMargins = []uint64{201, 250, 302, 100000}
+
+var c09NewIndex = []uint64{0, 50, 200}
+
+func c09NWorlds() int { return len(c09Margins)*2 + len(c09RegMargins) }
+
+func c09WorldName(world int) string {
+	if world >= 2*len(c09Margins) {
+		return fmt.Sprintf("registrar,margin=%d", c09RegMargins[world-2*len(c09Margins)])
+	}
+	return fmt.Sprintf("margin=%d,raw=%v", c09Margins[world%len(c09Margins)], world/len(c09Margins) == 1)
+}
 
 type c09World struct {
 	Regs Registers
@@ -248,8 +265,15 @@ type c09World struct {
 }
 
 func c09Build(world int) *c09World {
-	margin := c09Margins[world%len(c09Margins)]
-	rawVariant := world/len(c09Margins) == 1
+	registrar := world >= 2*len(c09Margins)
+	var margin uint64
+	rawVariant := false
+	if registrar {
+		margin = c09RegMargins[world-2*len(c09Margins)]
+	} else {
+		margin = c09Margins[world%len(c09Margins)]
+		rawVariant = world/len(c09Margins) == 1
+	}
 	storage := map[string][]byte{string(c09K[0]): {1, 2, 3}}
 	lookups := map[types.LookupMetaMapkey]types.TimeSlotSet{
 		{Hash: c09H[0], Length: 0}: {5},
@@ -281,6 +305,10 @@ func c09Build(world int) *c09World {
 		Assign:          types.ServiceIDList{0, 0},
 		Authorizers:     types.AuthQueues{{}, {}},
 		AlwaysAccum:     types.AlwaysAccumulateMap{},
+		CreateAcct:      77777,
+	}
+	if registrar {
+		ps.CreateAcct = c09Caller
 	}
 	w := &c09World{Reg: reg}
 	w.Args = hcAccCtx(ps, c09Caller, c09Slot, types.Entropy{7}, kv, nil)
@@ -312,7 +340,7 @@ func (w *c09World) apply(e c09Event) (OmegaOutput, bool, string, string) {
 	case NewOp:
 		w.Regs[7] = c09Base + c09OffC
 		w.Regs[8] = c09NewLen[e.A]
-		w.Regs[9], w.Regs[10], w.Regs[11], w.Regs[12] = 0, 0, 0, 0
+		w.Regs[9], w.Regs[10], w.Regs[11], w.Regs[12] = 0, 0, 0, c09NewIndex[e.B]
 	}
 	gas := Gas(1_000_000)
 	return hcCall(AccumulateOmegas[e.Op], e.Op, &w.Regs, w.Mem, &gas, &w.Args, AccumulateOmegas)
@@ -372,6 +400,7 @@ func c09Step(r *vlib.Run, evs []c09Event, world int, hist []int, check bool) str
 		preRaw := hcRawPresent(w.Args.AccumulateArgs.ResultContextX.StorageKeyVal, w.Reg, c09Caller)
 		pi, po := hcFootprint(preAcct, preRaw)
 		preThr := hcThreshold(pi, po, hcBig(uint64(preAcct.ServiceInfo.DepositOffset)))
+		preBal := hcBig(uint64(preAcct.ServiceInfo.Balance))
 		had := c09LookupLen(w, e)
 		preBad := map[types.ServiceID]bool{} // accounts already inconsistent before this event (reported at the event that broke them)
 		for sid, a := range w.Args.AccumulateArgs.ResultContextX.PartialState.ServiceAccounts {
@@ -393,7 +422,13 @@ func c09Step(r *vlib.Run, evs []c09Event, world int, hist []int, check bool) str
 		if res == "" {
 			res = "ok"
 		}
-		r.Class(fmt.Sprintf("%s exit=%s result=%s%s raw=%v", key, hcExitName(out.ExitReason), res, had, world >= len(c09Margins)))
+		wk := "parsed"
+		if world >= 2*len(c09Margins) {
+			wk = "registrar"
+		} else if world >= len(c09Margins) {
+			wk = "raw"
+		}
+		r.Class(fmt.Sprintf("%s exit=%s result=%s%s world=%s", key, hcExitName(out.ExitReason), res, had, wk))
 		x := w.Args.AccumulateArgs.ResultContextX
 		// (1) recorded = derived, for every account
 		ids := make([]int, 0, len(x.PartialState.ServiceAccounts))
@@ -433,7 +468,13 @@ func c09Step(r *vlib.Run, evs []c09Event, world int, hist []int, check bool) str
 			a := x.PartialState.ServiceAccounts[c09Caller]
 			ai, ao := hcFootprint(a, hcRawPresent(x.StorageKeyVal, w.Reg, c09Caller))
 			thr := hcThreshold(ai, ao, hcBig(uint64(a.ServiceInfo.DepositOffset)))
-			if e.Op != NewOp && thr.Cmp(preThr) > 0 && thr.Cmp(hcBig(uint64(a.ServiceInfo.Balance))) > 0 {
+			if e.Op != NewOp && thr.Cmp(preThr) > 0 && thr.Cmp(preBal) > 0 {
+				// "a mutation that would raise the threshold above the balance returns FULL": the balance
+				// is the one the account has when the call is made
+				r.Violation("PVM."+hostCallName[e.Op], "threshold-above-balance", key,
+					fmt.Sprintf("world %d history %s: success raised the threshold %s -> %s above the balance %s the account had at the call (FULL expected); balance afterwards %d",
+						world, c09HistString(evs, hist), preThr, thr, preBal, a.ServiceInfo.Balance), c)
+			} else if e.Op != NewOp && thr.Cmp(preThr) > 0 && thr.Cmp(hcBig(uint64(a.ServiceInfo.Balance))) > 0 {
 				r.Violation("PVM."+hostCallName[e.Op], "threshold-above-balance", key,
 					fmt.Sprintf("world %d history %s: success raised the threshold %s -> %s above the balance %d (FULL expected)",
 						world, c09HistString(evs, hist), preThr, thr, a.ServiceInfo.Balance), c)
